@@ -415,10 +415,11 @@ def check_cluster(sc, obs):
                     return (i, "%s copy on member %d holds %r, written %r" % (kind, m, bytes.fromhex(cv)[:60], txt[:60]))
             if not any(m == owner and kind == "primary" for m, kind, _, _ in copies):
                 return (i, "the partition owner (member %d) holds no primary copy" % owner)
-            if repl:
-                for b in backups:
-                    if not any(m == b and kind == "backup" for m, kind, _, _ in copies):
-                        return (i, "backup owner (member %d) holds no backup copy" % b)
+            if repl and backups:
+                # while a backup fragment is being handed over (a member joined) the list names the old and the new
+                # backup owner and only one of them holds the copy at any moment; which one is C03's subject, not C17's
+                if not any(m in backups and kind == "backup" for m, kind, _, _ in copies):
+                    return (i, "none of the backup owners %s holds a backup copy" % backups)
         elif name == "getentry":
             kx = op[1]
             cur = store.get(kx)
